@@ -42,6 +42,10 @@ ResAll == ReservedTlds \cup Res2
 CaseV(s) == {s, UpperS(s), MixedS(s)}
 Edit1(s) == { Subst(s, j) : j \in 1..Len(s) } \cup { SubSeq(s, 1, j - 1) \o SubSeq(s, j + 1, Len(s)) : j \in 1..Len(s) }
             \cup { SubSeq(s, 1, j) \o <<97>> \o SubSeq(s, j + 1, Len(s)) : j \in 0..Len(s) }
+AfterTlds == { <<100, 101>>, S_com, <<109, 117, 115, 101, 117, 109>>, <<105, 110, 102, 111>>, <<116, 101, 99, 104, 110, 111, 108, 111, 103, 121>>,
+               <<106, 111, 98, 115>>, <<99, 111, 46, 117, 107>> }
+ComLike == { <<99, 111, 109, 112, 97, 110, 121>>, <<110, 101, 116, 119, 111, 114, 107>>, <<111, 114, 103, 97, 110, 105, 99>>, <<110, 101, 116, 102, 108, 105, 120>>,
+             <<99, 111, 109, 120>>, <<99, 111>>, <<111, 114, 103, 46, 117, 107>>, <<99, 111, 109, 109, 117, 110, 105, 116, 121>>, <<110, 101>> }
 FamRes ==
   UNION { CaseV(r) : r \in ResAll } \cup
   UNION { UNION { { Dom(<<Lb(n), r>>), Dom(<<Lb(3), Lb(n), r>>), Dom(<<Lb(n), Lb(7), r>>), Dom(<<Lb(n), Lb(8), Lb(1), r>>),
@@ -59,7 +63,10 @@ FamRes ==
   UNION { UNION { { r \o Rep(120, n), Rep(120, n) \o r, Dom(<<x, r \o Rep(120, n)>>), Dom(<<x, Rep(120, n) \o r>>), Dom(<<S_example, S_com \o Rep(120, n)>>) }
                   : n \in 1..5 } : r \in ReservedTlds } \cup
   \* labels of every length AFTER a reserved word (the reserved word is then not the last label)
-  UNION { UNION { { Dom(<<r, Lb(n)>>), Dom(<<x, r, Lb(n)>>) } : n \in 1..63 } : r \in {S_example, S_test, S_localhost} } \cup
+  UNION { UNION { { Dom(<<r, Lb(n)>>), Dom(<<x, r, Lb(n)>>) } : n \in 1..63 } : r \in ReservedTlds } \cup
+  \* listed TLDs of every length class after a reserved word, and TLDs that merely begin with com / net / org after "example"
+  UNION { UNION { { Dom(<<r, t>>), Dom(<<x, UpperS(r), t>>), Dom(<<r \o <<115>>, t>>) } : t \in AfterTlds } : r \in ReservedTlds } \cup
+  { Dom(<<S_example, t>>) : t \in ComLike } \cup { Dom(<<x, S_example, t>>) : t \in ComLike } \cup
   \* a reserved word glued to other label characters (hyphen, digit, underscore, letter) is an ordinary label
   UNION { UNION { { g \o r, r \o g, Dom(<<x, g \o r>>), Dom(<<x, r \o g>>), Dom(<<x, x, g \o r>>), Dom(<<g \o r, S_com>>), Dom(<<x, r \o g, S_org>>),
                     Dom(<<g \o S_example, S_com>>), Dom(<<x, g \o S_example, S_net>>), Dom(<<S_example \o g, S_org>>), Dom(<<S_example, g \o S_com>>) }
